@@ -733,6 +733,24 @@ pub fn gen_storm(r: &mut Rng, fs: f32, max_ticks: f64, events: u64, p_param: f64
                 _ => {}
             }
         }
+        if r.chance(0.06) {
+            // a slow sweep of one time input, a fraction of a percent per tick, while the envelope runs
+            let which = r.usize_below(3);
+            let rate = *r.pick(&[1.0002f32, 1.0007, 0.9995, 0.999, 1.003]);
+            let steps = 50 + r.below(1500);
+            let mut cur = spec_time(t[which]);
+            ops.push(if r.chance(0.5) { Op::GateOn } else { Op::GateOff });
+            for _ in 0..steps {
+                cur = (cur * rate).max(0.001).min(20.0);
+                ops.push(match which {
+                    0 => Op::Attack(cur),
+                    1 => Op::Decay(cur),
+                    _ => Op::Release(cur),
+                });
+                ops.push(Op::Tick(1));
+            }
+            t[which] = cur;
+        }
         // how long to run: relative to one of the phase lengths
         let n = phase_ticks(*r.pick(&t), fs);
         let ticks = match r.below(12) {
